@@ -102,6 +102,9 @@ pub struct Case {
     /// `--files-from` only: the list contains an undecodable line before the n-th entry
     #[serde(default, skip_serializing_if = "Option::is_none")]
     pub list_poison: Option<usize>,
+    /// files whose placeholder is a symbolic link (directory / glob / files-from forms only)
+    #[serde(default, skip_serializing_if = "Vec::is_empty")]
+    pub symlinks: Vec<String>,
     /// additional path arguments that cannot be expanded or opened (an invalid glob pattern, a
     /// directory that does not exist): each is a failing member of the batch
     #[serde(default, skip_serializing_if = "Vec::is_empty")]
@@ -395,6 +398,9 @@ impl Case {
             }
             sc.argv.extend(self.bogus_paths.iter().cloned());
             sc.files = self.files.clone();
+            if sc.real_tree {
+                sc.symlinks = self.symlinks.clone();
+            }
         }
         sc.workers = self.workers.max(1);
         sc.chunks = self.chunks.clone();
